@@ -86,6 +86,11 @@ func cmdGenRT(args []string) {
 	}
 	sort.Strings(sts)
 	for _, t := range sts {
+		if t == "float32" || t == "float64" {
+			bf := map[string]string{"float32": "Float32bits", "float64": "Float64bits"}[t]
+			fmt.Fprintf(&buf, "// bit-identical elements (NaN payloads included)\nfunc vsliceeq_%s(a, b []%s) bool {\n\tif len(a) != len(b) {\n\t\treturn false\n\t}\n\tfor i := range a {\n\t\tif math.%s(a[i]) != math.%s(b[i]) {\n\t\t\treturn false\n\t\t}\n\t}\n\treturn true\n}\n\n", t, t, bf, bf)
+			continue
+		}
 		fmt.Fprintf(&buf, "func vsliceeq_%s(a, b []%s) bool {\n\tif len(a) != len(b) {\n\t\treturn false\n\t}\n\tfor i := range a {\n\t\tif a[i] != b[i] {\n\t\t\treturn false\n\t\t}\n\t}\n\treturn true\n}\n\n", t, t)
 	}
 	if g.needValue {
@@ -454,11 +459,8 @@ func (g *rtGen) kindOf(t types.Type) string {
 		}
 		return "scalar"
 	case *types.Slice:
-		if eb, ok := u.Elem().Underlying().(*types.Basic); ok {
-			if eb.Info()&types.IsFloat != 0 {
-				return "skip"
-			}
-			return "slice"
+		if _, ok := u.Elem().Underlying().(*types.Basic); ok {
+			return "slice" // float elements are compared by bit pattern (vsliceeq_float32 / vsliceeq_float64)
 		}
 	}
 	return "skip"
